@@ -89,6 +89,15 @@ def gen_source(rng, ctx):
         a = ''.join(rng.choice(['red', 'x = 1', 'import os', ')', 'é']) + rng.choice(seps) for _ in range(rng.choice([1, 2, 3])))
         text = "colour('a%sz').\nt(X) :- colour(X), X \\= 'b%sq'.\n" % (a, rng.choice(seps))
         hostile = True
+    if rng.random() < 0.3 and text.endswith('\n') and '\n' not in text.strip('\n').replace('.\n', ''):
+        # directives between the clauses (they are parsed, not compiled): with anonymous and named variables,
+        # quoted atoms, lists - whatever walks them must not influence the code of the clauses
+        DIRS = [":- initialization(main(_, _)).", ":- import('', [sub/1]).", ":- dynamic(foo/1).", ":- set(_, X, [_|X]).",
+                ":- bar(_, 'quoted atom', _).", ":- ensure_loaded(library(lists)).", ":- p(_, f(_, _), [_]).", ":- r(_, _, _)."]
+        lines = text.split('\n')
+        for _ in range(rng.choice([1, 1, 2, 3])):
+            lines.insert(rng.randrange(len(lines)), rng.choice(DIRS))
+        text = '\n'.join(lines)
     return text, hostile
 
 
